@@ -59,7 +59,7 @@ Section TimeLock.
   Proof.
     intros H. unfold tl_compute_w. rewrite dassert_ok.
     - apply byte_xor_val. symmetry. apply (ol_xof_len K O _ _ OL).
-    - intros E. destruct (H E) as [A|A].
+    - intros E. rewrite (ol_xof_len K O _ _ OL). destruct (H E) as [A|A].
       + apply Nat.ltb_lt in A. rewrite A. reflexivity.
       + rewrite A. apply orb_true_r.
   Qed.
